@@ -24,7 +24,7 @@ PROPS = {
     'C03': {
         'correspondence': CORR_L1,
         'coq': ['theories/Props/C03.vo', 'theories/Inst/C03_now.vo', 'theories/L1h/PropsC03once.vo', 'theories/L1h/Inst.vo', 'theories/L1b/PropsLbound.vo', 'theories/L1b/Inst.vo', 'theories/Inst/Fut_now.vo', 'theories/Inst/Jobs_now.vo'],
-        'profiles': [prof('pool', (80, 20), (2000, 80)), prof('core', (40, 10), (1000, 40), extra=['--min-pool', '1']), prof('fut', (50, 15), (1000, 60), extra=['--min-pool', '1']), prof('progs:fut_extra.progs', (0, 60), (0, 1500)), prof('progs:susp_extra.progs', (0, 60), (0, 1500))],
+        'profiles': [prof('pool', (80, 20), (2000, 80)), prof('core', (40, 10), (1000, 40), extra=['--min-pool', '1']), prof('fut', (50, 15), (1000, 60), extra=['--min-pool', '1']), prof('progs:fut_extra.progs', (0, 60), (0, 1500)), prof('progs:susp_extra.progs', (0, 60), (0, 1500)), prof('progs:f6_waiter_takeover.progs', (0, 60), (0, 1500))],
         'monitors': ['C03'], 'liveness': True, 'panics': False,
         'trusted_base': L1_TRUST,
         'assumptions': ['L-quiet (terminal => complete) plus L-bound (every run of the L1 model is shorter than an explicit bound: no livelock) give: every maximal execution ends complete; both for layer L1 (operations that do not suspend)'],
@@ -39,8 +39,8 @@ PROPS = {
     },
     'C04': {
         'correspondence': CORR_L1,
-        'coq': ['theories/Props/C04.vo', 'theories/Inst/C04_now.vo', 'theories/L1h/PropsC04.vo', 'theories/L1h/Inst.vo', 'theories/L1b/PropsLbound.vo', 'theories/L1b/Inst.vo', 'theories/L1z/PropsC04zero.vo', 'theories/L1z/Inst.vo', 'theories/Inst/Fut_now.vo', 'theories/L2/PropsC06.vo', 'theories/L2/Inst.vo', 'theories/Inst/Jobs_now.vo'],
-        'profiles': [prof('sync', (80, 20), (2000, 80)), prof('core', (40, 10), (800, 40)), prof('pool', (30, 10), (600, 40)), prof('fut', (40, 15), (800, 60), extra=['--max-pool', '1']), prof('progs:fut_extra.progs', (0, 60), (0, 1500)), prof('progs:susp_extra.progs', (0, 60), (0, 1500))],
+        'coq': ['theories/Props/C04.vo', 'theories/Inst/C04_now.vo', 'theories/L1h/PropsC04.vo', 'theories/L1h/Inst.vo', 'theories/L1b/PropsLbound.vo', 'theories/L1b/Inst.vo', 'theories/L1z/PropsC04zero.vo', 'theories/L1z/Inst.vo', 'theories/Inst/Fut_now.vo', 'theories/L2/PropsC06.vo', 'theories/L2/Inst.vo', 'theories/Inst/Jobs_now.vo', 'theories/Inst/Wrapper_now.vo'],
+        'profiles': [prof('sync', (80, 20), (2000, 80)), prof('core', (40, 10), (800, 40)), prof('pool', (30, 10), (600, 40)), prof('fut', (40, 15), (800, 60), extra=['--max-pool', '1']), prof('progs:fut_extra.progs', (0, 60), (0, 1500)), prof('progs:susp_extra.progs', (0, 60), (0, 1500)), prof('progs:f6_waiter_takeover.progs', (0, 60), (0, 1500))],
         'monitors': ['C04'], 'liveness': True, 'panics': True,
         'trusted_base': L1_TRUST,
         'assumptions': ['C04_full (any pool maximum incl. 0) is proved for layer L1 (operations that do not suspend); sync on a queue suspended on a future is covered by L2\'s terminal theorem (pool >= 1) and by the profiles; nested sync from inside jobs is exercised by the profiles, not modelled'],
@@ -55,8 +55,8 @@ PROPS = {
     },
     'C06': {
         'correspondence': CORR_L2,
-        'coq': ['theories/L2/PropsC06.vo', 'theories/L2/Inst.vo', 'theories/L2/Examples.vo', 'theories/Inst/Fut_now.vo'],
-        'profiles': [prof('sweep:wake_sweep.progs', (0, 3), (0, 30)), prof('fut', (60, 15), (1500, 60)), prof('susp', (30, 10), (600, 40)), prof('progs:fut_extra.progs', (0, 60), (0, 1500)), prof('progs:susp_extra.progs', (0, 60), (0, 1500))],
+        'coq': ['theories/L2/PropsC06.vo', 'theories/L2/Inst.vo', 'theories/L2/Examples.vo', 'theories/Inst/Fut_now.vo', 'theories/Inst/C04_now.vo', 'theories/L1z/PropsC04zero.vo', 'theories/L1z/Inst.vo'],
+        'profiles': [prof('sweep:wake_sweep.progs', (0, 3), (0, 30)), prof('fut', (60, 15), (1500, 60)), prof('susp', (30, 10), (600, 40)), prof('progs:fut_extra.progs', (0, 60), (0, 1500)), prof('progs:susp_extra.progs', (0, 60), (0, 1500)), prof('progs:f6_waiter_takeover.progs', (0, 60), (0, 1500))],
         'monitors': ['C06', 'C03', 'C07', 'C04'], 'liveness': True, 'panics': True,
         'trusted_base': L2_TRUST,
         'assumptions': ['the no-lost-wake invariant (all three runner contexts, any event timing, stale wakers); terminal theorem with >= 1 pool runner (C06_terminal_partial_L2: in a terminal state with all events fired no operation is suspended and nothing is queued); terminal theorem with ZERO pool runners (C06_zero_pool_L2: caller 0 runs desync / awaited or detached future operations, the other callers only fire events: in a terminal state caller 0 has finished; needs zero_cond of the generated tables: poll always takes an idle or pending queue over). Outside the zero-pool theorem: suspend, sync and poll-then-drop on caller 0 (refuted for suspend: C06_zero_pool_needs_side_condition_refuted) - those are exercised by the pool-0 wake sweeps'],
@@ -71,7 +71,7 @@ PROPS = {
     },
     'C08': {
         'coq': ['theories/SyncFut/PropsC08.vo', 'theories/Inst/C08_now.vo', 'theories/Inst/Jobs_now.vo'],
-        'profiles': [prof('fsync', (100, 20), (2500, 60)), prof('progs:cancel.progs', (0, 400), (0, 6000))],
+        'profiles': [prof('fsync', (100, 20), (2500, 60)), prof('progs:cancel.progs', (0, 400), (0, 6000)), prof('progs:f6_waiter_takeover.progs', (0, 60), (0, 1500))],
         'correspondence': {'kind': 'syncfut', 'profiles': [prof('fsync', (60, 5), (600, 10)), prof('progs:syncfut_extra.progs', (0, 10), (0, 60)), prof('progs:cancel.progs', (0, 10), (0, 60))]},
         'monitors': ['C08', 'C01', 'C02', 'C05'], 'liveness': True, 'panics': True,
         'trusted_base': ['SyncFut model (coq/theories/SyncFut/Model.v): hand-written; the queue abstracted as one-at-a-time FIFO execution with the slot job and other operations possibly suspended (justified by C01/C02), the queue runner excluded while the polling task drains (justified by the ownership invariant); tied by translator facts, by the replay of logged executions of the real crate on the extracted model (driver/syncfut/replay_syncfut.ml: every oneshot operation, result-cell section and harness marker must be an enabled model step with the same label and poll result, and the final order of observables must equal the model\'s ghost log) and by the run-time oracles'],
@@ -134,7 +134,7 @@ PROPS = {
         'assumptions': ['PARTIAL BY NATURE: proves the lifetime protocol the unsafe sites rely on (erased sync jobs never outlive their call, closures run at most once, nothing runs after the free operation); absence of undefined behaviour outside the protocol is not provable here; canary payloads (dead flag, drop counter, wrong-object check, concurrent-modification canary) are checked in every profile; no AddressSanitizer build is part of the check'],
     },
     'C15': {
-        'coq': ['theories/Props/C15.vo', 'theories/Inst/C15_now.vo'],
+        'coq': ['theories/Props/C15.vo', 'theories/Inst/C15_now.vo', 'theories/Inst/Wrapper_now.vo'],
         'profiles': [prof('panic', (40, 2), (400, 4), real=True)],
         'monitors': ['C15', 'C03', 'C04', 'C07'], 'liveness': True, 'panics': True,
         'trusted_base': ['Panic/Absorb.v: the queue-state word under arbitrary sequences of table-driven events; the unwinding itself (guards run, thread dies, reaping) is exercised on real threads, not modelled'],
